@@ -112,7 +112,7 @@ pub fn run(tier: Tier) -> i32 {
         let lang = l.facade();
         let mut full = vocab::sigma_full(l);
         full.push(" ".to_string());
-        let cls: Vec<String> = vocab::sigma_cls(l).into_iter().take(tier.pick(14, 16)).collect();
+        let cls: Vec<String> = vocab::sigma_cls(l).into_iter().take(tier.pick(16, 17)).collect();
         sizes.push(json!({"lang": l.code(), "sigma_full": full.len(), "sigma_cls": cls.len()}));
         total.merge(explore::all_sequences(&full, kf, |syms, acc| one_stream(&ctx, acc, l, &lang, syms)));
         total.merge(explore::all_sequences2(&cls, kc, |syms, acc| {
